@@ -291,6 +291,19 @@ impl<'a, T: Read + Write + Seek> PointCloudWriter<'a, T> {
         validate_color(prototype)?;
         validate_return(prototype)?;
 
+        // Integer ranges must not be inverted
+        for record in prototype {
+            if let RecordDataType::Integer { min, max } | RecordDataType::ScaledInteger { min, max, .. } =
+                record.data_type
+            {
+                if min > max {
+                    Error::invalid(format!(
+                        "The minimum {min} is bigger than the maximum {max} of an integer record in the prototype"
+                    ))?
+                }
+            }
+        }
+
         // Row & column check
         if let Some(record) = get(RecordName::RowIndex) {
             match record.data_type {
